@@ -177,10 +177,18 @@ func keepSameLineAsPrevious(node Node) bool {
 func needNewLineAfter(node Node) bool {
 	switch n := node.(type) { //nolint:exahustive // we may add more later
 	case *Comment:
+		if n.Type() == token.LINECOMMENT {
+			return true // anything printed on the same line after a // comment would become part of it.
+		}
 		return !n.SameLineAsNext
 	default:
 		return true
 	}
+}
+
+func isLineComment(node Node) bool {
+	c, ok := node.(*Comment)
+	return ok && c.Type() == token.LINECOMMENT
 }
 
 func isComment(node Node) bool {
@@ -267,7 +275,7 @@ func prettyPrintCompact(ps *PrintState, s Node, i int) bool {
 // Normal/long form print: Decide if using new line or space as separator.
 func prettyPrintLongForm(ps *PrintState, s Node, i int) {
 	if i > 0 || ps.IndentLevel > 1 {
-		if keepSameLineAsPrevious(s) || !needNewLineAfter(ps.prev) {
+		if (keepSameLineAsPrevious(s) && !isLineComment(ps.prev)) || !needNewLineAfter(ps.prev) {
 			log.Debugf("=> PrettyPrint adding just a space")
 			_, _ = ps.Out.Write([]byte{' '})
 			ps.IndentationDone = true
